@@ -668,6 +668,11 @@ func (vfs *MemFS) Remove(name string) error {
 		return &fs.PathError{Op: op, Path: name, Err: err}
 	}
 
+	if child == node(parent) {
+		// the root directory has no parent and can't be removed.
+		return &fs.PathError{Op: op, Path: name, Err: vfs.err.PermDenied}
+	}
+
 	parent.mu.Lock()
 	defer parent.mu.Unlock()
 
@@ -715,6 +720,20 @@ func (vfs *MemFS) RemoveAll(path string) error {
 
 	if err != vfs.err.FileExists {
 		return &fs.PathError{Op: op, Path: path, Err: err}
+	}
+
+	if child == node(parent) {
+		// the root directory has no parent and stays: only its content is removed.
+		err = vfs.removeAll(parent)
+		if err != nil {
+			return &fs.PathError{Op: op, Path: path, Err: err}
+		}
+
+		parent.mu.Lock()
+		parent.children = nil
+		parent.mu.Unlock()
+
+		return nil
 	}
 
 	parent.mu.Lock()
